@@ -82,6 +82,9 @@ JudgeMake(e, i) ==
                           rs.k = "scaled" /\ ex = tz /\ (rs.digits = ud - tz \/ (IsZero(v) /\ rs.digits = 1))
                      [] i.op = "make_static_number_c" ->
                           rs.k = "scaled" /\ ex = tz /\ rs.digits = ud - tz
+                     \* make_scaled_integer(constant): the trailing zero bits go into the exponent; the representation only has to hold
+                     \* the rest (valueOK), it is a built-in type of at least int's width
+                     [] i.op = "make_scaled_integer_c" -> rs.k = "scaled" /\ ex = tz
                      [] OTHER -> TRUE
         \* -2^k: the value whose used-digit count k gives a symmetric elastic range that excludes it (known finding)
         negPow2 == v.n /\ BitLen(Abs(v)) - 1 = TrailingZeros(Abs(v))
